@@ -22,7 +22,7 @@ RULE = ('descriptor = seeded batch of scenarios; scenario = 1..8 distinct regist
         'header of those ports dispatched after every step.')
 ASSUMPTIONS = ['matching rule: (header port & port mask) == registered port and (header channel & channel mask) == '
                'registered channel']
-REQUIRED = ['mon.removals_of_absent_registrations', 'mon.packets', 'mon.must_deliveries', 'mon.mutations_executed', 'mon.raising_callbacks',
+REQUIRED = ['mon.packets_without_payload', 'mon.removals_of_absent_registrations', 'mon.packets', 'mon.must_deliveries', 'mon.mutations_executed', 'mon.raising_callbacks',
             'mon.caller_calls', 'mon.self_removals', 'mon.shared_callback_removals',
             'mon.shared_callback_multi_pattern_deliveries', 'mon.deliveries_through_the_public_wrappers']
 
@@ -101,7 +101,8 @@ def run_scenario(ctx, regs, script, raising, headers, label):
     from cflib.utils.callbacks import Caller
     packets = []
     for uid, h in enumerate(headers):
-        pk = CRTPPacket(h, [uid & 0xFF, (uid >> 8) & 0xFF])
+        # (payloads of every kind: a packet may consist of its header alone)
+        pk = CRTPPacket(h, [uid & 0xFF, (uid >> 8) & 0xFF] if (uid * 7 + len(headers)) % 5 else [])
         pk._uid = uid
         packets.append(pk)
     link = _Link(packets)
@@ -229,6 +230,8 @@ def run_scenario(ctx, regs, script, raising, headers, label):
         except BaseException as e:  # noqa
             died = e
         ctx.count('mon.packets')
+        if len(pk.data) == 0:
+            ctx.count('mon.packets_without_payload')
         ctx.evals()
         h = pk.header
         got = [rid for (uid, rid) in log[before:]]
@@ -362,7 +365,7 @@ def run_shared(ctx, rnd, label):
             history.append(('add',) + ent)
         hs = sorted({(p << 4) | c for p in ports for c in range(4)} | {rnd.randrange(256) for _ in range(3)})
         for h in hs:
-            pk = CRTPPacket(h, [1])
+            pk = CRTPPacket(h, [1] if h % 3 else [])
             link.packets = [pk]
             link.i = 0
             del calls[:]
@@ -436,7 +439,7 @@ def run_public(ctx, rnd, label):
             table.append(ent)
             history.append(('add',) + ent)
         for h in range(256):
-            link.packets = [CRTPPacket(h, [1])]
+            link.packets = [CRTPPacket(h, [1] if h % 3 else [])]
             link.i = 0
             del calls[:]
             try:
